@@ -28,6 +28,8 @@ func TestCheck(t *testing.T) {
 	switch prop {
 	case "C03":
 		exitCode = runC03read(t, run)
+	case "C04":
+		exitCode = runC04parser(t, run)
 	case "C01":
 		exitCode = runC01parser(t, run)
 	case "C14":
